@@ -1242,7 +1242,7 @@ def Envelope.isCreate (e : Envelope) : Prop := e.op = .create ∧ e.subresource 
     submitted pod) IS the pod computed by the admission steps, whatever the flags say; a failing step rejects the
     request. -/
 theorem handle_stores_admitted (k : Ranges) (e : Envelope) (he : e.isCreate) (gate : Bool) (rand : Int) (ps : List Profile) (p : Pod) :
-    handleMutating k e gate rand ps p = if colocationFails true rand ps then none else admitCreate k gate rand ps p := by
+    handleMutating k e gate false rand ps p = if colocationFails true rand ps then none else admitCreate k gate rand ps p := by
   obtain ⟨h1, h2, h3, h4⟩ := he
   unfold handleMutating shouldIgnore handleCreate admitCreate
   simp only [h1, h2, h3, h4, Bool.not_true, Bool.or_false, Bool.false_eq_true, if_false]
@@ -1270,11 +1270,29 @@ theorem handle_stores_admitted (k : Ranges) (e : Envelope) (he : e.isCreate) (ga
         subst hm2
         rw [ext_flag_sound _ _ hx, colocation_flag_sound k true gate rand ps p hm1]
 
+/-- with the summary-annotation step switched off (feature gate DisableExtendedResourceSpec) the stored pod is the pod
+    of the colocation step. -/
+theorem handle_without_ext (k : Ranges) (e : Envelope) (he : e.isCreate) (gate : Bool) (rand : Int) (ps : List Profile) (p : Pod) :
+    handleMutating k e gate true rand ps p =
+      if colocationFails true rand ps then none else some (colocationMutate k true gate rand ps p).1 := by
+  obtain ⟨h1, h2, h3, h4⟩ := he
+  unfold handleMutating shouldIgnore handleCreate
+  simp only [h1, h2, h3, h4, Bool.not_true, Bool.or_false, Bool.false_eq_true, if_false, if_true]
+  by_cases hf : colocationFails true rand ps = true
+  · simp [hf]
+  · have hf' : colocationFails true rand ps = false := by simpa using hf
+    simp only [hf', Bool.false_eq_true, if_false]
+    by_cases hm : (colocationMutate k true gate rand ps p).2 = true
+    · rw [if_pos hm]
+    · rw [if_neg hm]
+      simp only [Bool.not_eq_true] at hm
+      rw [colocation_flag_sound k true gate rand ps p hm]
+
 /-- every other request leaves the submitted pod as it is (UPDATE: handleUpdate does nothing; DELETE / CONNECT;
     sub-resources; foreign resources) or is rejected for want of an object. -/
-theorem handle_non_create_stores_submitted (k : Ranges) (e : Envelope) (gate : Bool) (rand : Int) (ps : List Profile) (p p' : Pod)
+theorem handle_non_create_stores_submitted (k : Ranges) (e : Envelope) (gate noExt : Bool) (rand : Int) (ps : List Profile) (p p' : Pod)
     (hne : e.op ≠ .create ∨ e.subresource = true ∨ e.isPods = false)
-    (h : handleMutating k e gate rand ps p = some p') : p' = p := by
+    (h : handleMutating k e gate noExt rand ps p = some p') : p' = p := by
   unfold handleMutating shouldIgnore at h
   split at h
   · cases h; rfl
@@ -1295,7 +1313,7 @@ theorem stored_native_erased (k : Ranges) (e : Envelope) (he : e.isCreate) (rand
     (hm : (sortProfiles (ps.filter (·.matched))).isEmpty = false)
     (hs : (sortProfiles (ps.filter (·.matched))).any (·.skipRes) = false)
     (ht : IsTier (pcWithDefault k (applyProfiles rand (sortProfiles (ps.filter (·.matched))) p)))
-    (h : handleMutating k e false rand ps p = some p') :
+    (h : handleMutating k e false false rand ps p = some p') :
     (∀ c ∈ p'.ctrs ++ p'.inits, c.req Res.cpu = none ∧ c.req Res.memory = none ∧ c.lim Res.cpu = none ∧ c.lim Res.memory = none) ∧
     (∀ o, p'.overhead = some o → o Res.cpu = none ∧ o Res.memory = none) := by
   rw [handle_stores_admitted k e he] at h
@@ -1313,7 +1331,7 @@ theorem stored_amounts_kept (k : Ranges) (e : Envelope) (he : e.isCreate) (rand 
     (hm : (sortProfiles (ps.filter (·.matched))).isEmpty = false)
     (hs : (sortProfiles (ps.filter (·.matched))).any (·.skipRes) = false)
     (ht : IsTier (pcWithDefault k (applyProfiles rand (sortProfiles (ps.filter (·.matched))) p)))
-    (h : handleMutating k e false rand ps p = some p') :
+    (h : handleMutating k e false false rand ps p = some p') :
     let q := applyProfiles rand (sortProfiles (ps.filter (·.matched))) p
     p'.ctrs = q.ctrs.map (mutateCtr (pcWithDefault k q)) ∧ p'.inits = q.inits.map (mutateCtr (pcWithDefault k q)) ∧
     p'.overhead = q.overhead.map (replaceBoth (pcWithDefault k q)) ∧
@@ -1331,7 +1349,7 @@ theorem stored_amounts_kept (k : Ranges) (e : Envelope) (he : e.isCreate) (rand 
 
 /-- 6 (stored object). the summary annotation of the stored pod matches the stored spec: storing is admitting. -/
 theorem stored_is_admitted (k : Ranges) (e : Envelope) (he : e.isCreate) (gate : Bool) (rand : Int) (ps : List Profile) (p p' : Pod)
-    (h : handleMutating k e gate rand ps p = some p') : admitCreate k gate rand ps p = some p' := by
+    (h : handleMutating k e gate false rand ps p = some p') : admitCreate k gate rand ps p = some p' := by
   rw [handle_stores_admitted k e he] at h
   split at h
   · cases h
@@ -1341,7 +1359,7 @@ theorem stored_is_admitted (k : Ranges) (e : Envelope) (he : e.isCreate) (gate :
     unchanged. -/
 theorem handle_readmission_idempotent (k : Ranges) (e : Envelope) (he : e.isCreate) (gate : Bool) (rand : Int) (ps : List Profile) (p p' : Pod)
     (hs : AppliedSimple rand (ps.filter (·.matched)))
-    (h : handleMutating k e gate rand ps p = some p') : handleMutating k e gate rand ps p' = some p' := by
+    (h : handleMutating k e gate false rand ps p = some p') : handleMutating k e gate false rand ps p' = some p' := by
   rw [handle_stores_admitted k e he] at h ⊢
   split at h
   · cases h
@@ -1449,7 +1467,7 @@ example : plainCreate.isCreate := by unfold Envelope.isCreate; decide
     step still reports mutated (translation), and the STORED pod carries mid-cpu instead of cpu. -/
 example : shouldSkipProfile 0 offProfile = true ∧
     (colocationMutate stdRanges true false 0 [offProfile] (exPod QoS.ls 7500)).2 = true ∧
-    ∃ p', handleMutating stdRanges plainCreate false 0 [offProfile] (exPod QoS.ls 7500) = some p' ∧
+    ∃ p', handleMutating stdRanges plainCreate false false 0 [offProfile] (exPod QoS.ls 7500) = some p' ∧
       p'.priority = some 7500 ∧ p'.ctrs.map (fun c => (c.req Res.cpu, c.req Res.midCPU)) = [(none, some 1000000000)] :=
   ⟨by decide, by decide, _, rfl, by decide⟩
 
